@@ -2,9 +2,9 @@
 # C01: a hash computed through one path is copied to all paths that had the same (device, inode)
 # when they were scanned, without checking that the path that is opened still is that file.
 # usage: repro_1.sh <checkout>   (uses <checkout>/target/debug/fclones, builds nothing)
-CHECKOUT=${1:-/tmp/hunt/n1}
+CHECKOUT=${1:-/repo}
 F=$CHECKOUT/target/debug/fclones
-[ -x "$F" ] || F=/tmp/hunt/n1/target/debug/fclones
+[ -x "$F" ] || F=${1:-/repo}/target/debug/fclones
 # tmpfs has no FIEMAP, like SSDs where fclones does not ask for extents at all: the hashing order
 # then stays "by inode as scanned". On a rotational ext4 disk the extent lookup done right after
 # the scan happens to separate the replaced paths, which narrows the race window to the hashing
